@@ -237,11 +237,11 @@ CHECKS["C10"] = dict(
          "with the datasheet clock and must denote 440*2^((p-69)/12) within one F-number step, with unchanged multiplier registers, for p inside the native range; "
          "frequency monotone in p (a call that writes no frequency is judged by the pair the chip holds from earlier writes). scenarios (rapidcheck): bend fan-out over histories with key-down and "
          "pedal-held notes and bend-range (RPN 0) changes in between; portamento with overlapping keys incl. keys 0/1/2/126/127 (start tone at the note-on, every re-pitch "
-         "between start and end tone, end tone reached). Non-trivial = a bent or block>=1 grid point / a history with a judged bend or glide; grid points distinct by construction.",
+         "between start and end tone, end tone reached); vibrato (modulation wheel 1..127 on one of two channels, with bend and note offset, 3-64 ms steps: the frequency the chip holds stays within +-wheel x depth of the nominal tone, the other channel's note stays exact, the first re-pitch after the wheel returned to 0 is exact). Non-trivial = a bent or block>=1 grid point / a history with a judged bend or glide; grid points distinct by construction.",
     assumptions=[
         "RPN 0 LSB: both 1/128-semitone (what the code does) and cents (MIDI RP-018) readings are accepted (p interval)",
         "points whose expected frequency is >= 6.6 kHz or < 8 Hz are outside the native range and skipped (counted)",
-        "vibrato is off; portamento rate law itself is not asserted, only bounds, direction and arrival",
+        "vibrato: the wave form and rate are not asserted, only that the offset stays within wheel value x the channel's vibrato depth (default 0.5 semitone at 127), affects only its own MIDI channel, and is gone at the first re-pitch after the wheel returned to 0; portamento rate law itself is not asserted, only bounds, direction and arrival",
     ],
     min_nontrivial={"quick": 50000, "thorough": 1000000},
     manifest=dict(
